@@ -135,7 +135,16 @@ CONFLICT = ('a-declared-qualifier-conflicts-with-the-inherited-one',
             '(g_items[j][1].tosubclass is True and g_items[j][1].overridable is not True and '
             '(new_quals[g_items[j][0]].value != g_items[j][1].value or new_quals[g_items[j][0]].type != g_items[j][1].type)) or '
             '(g_items[j][1].tosubclass is not True and g_items[j][1].overridable is False)), 0, len(g_items))')
-CONTRACTS.append(Contract(
+# NOT LOADED (UNFINISHED): the contract below is written out completely but its check did not terminate within 20 minutes
+# (one worker process per contract; about 50 paths through the bodies of loops 2 and 3 with _init_qualifier executed from
+# its source, each path assuming and checking 9 invariants whose Opt(Bool) flavor tests fork under `implies`, every fork a
+# feasibility query over a path condition with the quantified enumeration axioms: the 1.5 s budget per query is used up
+# each time).  A reduced variant (membership row, copy row, never-replaced, frames) did not finish within 7 minutes either.
+# Nothing of it is claimed.  What would make it tractable: Opt(Bool) field tests in specifications that do not fork (one
+# term `opt == some(True)`), and a callee contract that may name the fields of an object known by reference in `modifies`
+# (then _init_qualifier is cut at its proved contract: 1 path instead of 19 per call).
+UNFINISHED = []
+UNFINISHED.append(Contract(
     K + '_resolve_qualifiers', label='propagate=True',
     params=dict(RQ_PARAMS, new_quals=MapOf('str', QREF), inherited_quals=Ref('NocaseDict'), propagate=Lit(True)),
     ghosts={'g_items': ITEMS, 'g_q': Str, 'g_p': Int, 'g_j': Int},
@@ -157,3 +166,35 @@ CONTRACTS.append(Contract(
           'that is declared and NOT inherited is initialised by _init_qualifier.  Deviations of the code that this '
           'contract states as they are: see REFUTED_ON_THE_UNCHANGED_TREE',
 ))
+
+# ---- NOT LOADED: where _resolve_qualifiers deviates from DSP0004 / the property text on the unchanged tree.  The strict
+# clauses are variants of rows of table() above; since the propagate=True contract is not loaded they have NOT been put to
+# the engine - each is shown by a native reproducer instead (cd /repo && /venv/bin/python - <<EOF ... EOF).
+# (1) "elements the class does not redeclare are marked propagated and newly introduced ones are not": a Restricted qualifier
+#     that the subclass declares again is the subclass's own declaration, yet the code marks it propagated=True
+#     (row declared-and-restricted-is-accepted-unless-DisableOverride; known finding
+#     known:restricted-qualifier-redeclared-marked-propagated).  Strict clause: implies(I and D0 and not TS, NQ.propagated is False)
+#       conn.compile_mof_string(Qualifier QRE : string = null, Scope(any), Flavor(EnableOverride, Restricted); Key; Override;
+#                               class A { [Key] string K; [QRE("r0")] uint16 E; };
+#                               class B : A { [QRE("r1"), Override("E")] uint16 E; };)
+#       GetClass('B', LocalOnly=False, IncludeQualifiers=True).properties['E'].qualifiers['QRE']  ->  value 'r1', propagated True
+# (2) every qualifier of a resolved element has its flavors set (what _init_qualifier establishes, C12.py): in the rows
+#     declared-and-not-overridable (same value) and declared-and-restricted the declared qualifier is neither initialised
+#     by loop 2 (it IS inherited) nor in loop 3 - tosubclass / overridable stay None when the caller did not set them, and
+#     one level further down `if inh_qual.tosubclass:` treats None as Restricted.  Root cause of the known findings
+#     known:repeated-disableoverride-qualifier-not-propagated-further / -refused-further-down / -change-accepted-further-down.
+#     Strict clause: implies(g_q in new_quals, NQ.tosubclass is not None and NQ.overridable is not None)
+#       Qualifier QTD : string = null, Scope(any), Flavor(DisableOverride, ToSubclass); class A { [Key] string K; [QTD("v0")] uint16 E; };
+#       conn.CreateClass(CIMClass('B', superclass='A', properties=[CIMProperty('E', None, type='uint16',
+#                        qualifiers=[CIMQualifier('QTD', 'v0'), CIMQualifier('Override', 'E')])]))
+#       GetClass('B', LocalOnly=False, IncludeQualifiers=True).properties['E'].qualifiers['QTD']
+#                                                           ->  propagated True, tosubclass None, overridable None
+REFUTED_ON_THE_UNCHANGED_TREE.append(Contract(
+    K + '_resolve_qualifiers', label='propagate=True, strict',
+    params=UNFINISHED[0].params, ghosts=UNFINISHED[0].ghosts, requires=UNFINISHED[0].requires, callees=UNFINISHED[0].callees,
+    loops=UNFINISHED[0].loops,
+    ensures=[('a-redeclared-restricted-qualifier-is-local', f'implies({I_} and {D0} and not {TS}, {NQ}.propagated is False)'),
+             ('every-resolved-qualifier-has-its-flavors',
+              f'implies(g_q in new_quals, {NQ}.tosubclass is not None and {NQ}.overridable is not None)')],
+    raises=UNFINISHED[0].raises,
+    notes='not run by the engine (see UNFINISHED); both clauses are violated natively, reproducers above'))
